@@ -339,6 +339,60 @@ func (g *Graph) condVertices() []int {
 	return out
 }
 
+// boolLocalDef: e is a local boolean that is defined exactly once, by `x := <expr>` in this function (not in a nested
+// literal), with an expression free of calls other than len/cap; returns that expression and the vertex of the definition.
+func (g *Graph) boolLocalDef(e ast.Expr) (ast.Expr, int) {
+	id, ok := ast.Unparen(e).(*ast.Ident)
+	if !ok {
+		return nil, -1
+	}
+	obj, _ := g.F.ObjOf(id).(*types.Var)
+	if obj == nil || obj.IsField() {
+		return nil, -1
+	}
+	if b, isB := obj.Type().Underlying().(*types.Basic); !isB || b.Info()&types.IsBoolean == 0 {
+		return nil, -1
+	}
+	var def ast.Expr
+	var at ast.Node
+	n := 0
+	for _, w := range Writes(g.F.Body, true) {
+		if g.F.ObjOf(w.LHS) != types.Object(obj) {
+			continue
+		}
+		n++
+		def, at = w.RHS, w.Stmt
+	}
+	if n != 1 || def == nil {
+		return nil, -1
+	}
+	as, isAs := at.(*ast.AssignStmt)
+	if !isAs || as.Tok != token.DEFINE {
+		return nil, -1
+	}
+	dv := g.VertexOf(at)
+	if dv < 0 {
+		return nil, -1 // defined inside a literal
+	}
+	pure := true
+	ast.Inspect(def, func(x ast.Node) bool {
+		switch y := x.(type) {
+		case *ast.CallExpr:
+			if id, isID := y.Fun.(*ast.Ident); isID && (id.Name == "len" || id.Name == "cap") {
+				return true
+			}
+			pure = false
+		case *ast.FuncLit:
+			pure = false
+		}
+		return pure
+	})
+	if !pure {
+		return nil, -1
+	}
+	return def, dv
+}
+
 // taglessCase: e is the single expression of a case clause of a switch without tag.
 func (g *Graph) taglessCase(st ast.Stmt, e ast.Expr) bool {
 	cc, _ := st.(*ast.CaseClause)
@@ -364,6 +418,15 @@ func (g *Graph) GuardsAt(v int) []Atom {
 			if v != g.Entry && !seen[v] {
 				var as []Atom
 				splitAtoms(cond, k == 0, &as)
+				// a condition held in a local (`ok := a && b` … `if ok {`) stands for its definition, as long as nothing the
+				// definition mentions is reassigned in between
+				for _, a := range as {
+					if def, dv := g.boolLocalDef(a.E); def != nil && !g.staleBetween(def, dv+1, ev-1) {
+						var more []Atom
+						splitAtoms(def, a.Val, &more)
+						as = append(as, more...)
+					}
+				}
 				for _, a := range as {
 					if !g.staleBetween(a.E, ev, v) {
 						atoms = append(atoms, a)
